@@ -62,7 +62,7 @@ AllLocations == {"SCHEMA", "SCALAR", "OBJECT", "FIELD_DEFINITION", "ARGUMENT_DEF
 CoreDirs ==
   [ skip       |-> DirectiveD("skip", <<ArgD("if", NonNull(B))>>, <<"FIELD", "FRAGMENT_SPREAD", "INLINE_FRAGMENT">>),
     include    |-> DirectiveD("include", <<ArgD("if", NonNull(B))>>, <<"FIELD", "FRAGMENT_SPREAD", "INLINE_FRAGMENT">>),
-    deprecated |-> DirectiveD("deprecated", <<ArgDD("reason", S, StrV("No longer supported"))>>, <<"FIELD_DEFINITION", "ENUM_VALUE">>),
+    deprecated |-> DirectiveD("deprecated", <<ArgDD("reason", S, StrV("\"No longer supported\""))>>, <<"FIELD_DEFINITION", "ENUM_VALUE">>),
     go         |-> DirectiveD("go", <<ArgD("type", NonNull(S))>>, <<"SCHEMA", "QUERY", "MUTATION", "SUBSCRIPTION", "OBJECT", "FIELD_DEFINITION">>) ]
 
 EmptyFn == [x \in {} |-> 0]
